@@ -895,12 +895,35 @@ func c12CLI(c *core.C, ci *c12Image, ix *c12Index, w *c12Workload) {
 		c.Count("cli_samples_"+what, 1)
 	}
 	// `buf build --type` (include-only, in-place in the controller)
-	for k := 0; k < 2; k++ {
-		f := defaults(mk([]string{c12Pick(r, cat.msgs), c12Pick(r, cat.mths), c12Pick(r, cat.exts)}[:1+r.IntN(3)], nil), true)
+	// the same filter applied to the image read back from a file (binary, then json): the alternative form of
+	// the input — its options arrive as unrecognised fields and are re-interpreted with the image's own resolver
+	imgInputs := []string{"", "", filepath.Join(c.Tmp, "c12full.binpb"), filepath.Join(c.Tmp, "c12full.json")}
+	for _, in := range imgInputs[2:] {
+		defer os.Remove(in)
+	}
+	for k := 0; k < 4; k++ {
+		var f *c12Filter
+		if k < 2 {
+			f = defaults(mk([]string{c12Pick(r, cat.msgs), c12Pick(r, cat.mths), c12Pick(r, cat.exts)}[:1+r.IntN(3)], nil), true)
+		} else {
+			rr := core.RandFor(c.Seed, "C12", c.Idx, fmt.Sprintf("imginput%d", k))
+			f = defaults(mk([]string{c12Pick(rr, cat.msgs), c12Pick(rr, cat.mths), c12Pick(rr, cat.exts)}[:1+rr.IntN(3)], nil), true)
+		}
 		if f == nil {
 			continue
 		}
 		args := []string{"build", "-o", "-#format=binpb"}
+		what := "build"
+		if in := imgInputs[k]; in != "" {
+			w := run.Buf(ws, env, nil, "build", "-o", in)
+			c.Eval(1)
+			if w.Code != 0 {
+				c.Violation("cli-disagrees", "build:image-not-written", fmt.Sprintf("buf build -o %s exits %d: %s", filepath.Base(in), w.Code, clip(w.Stderr)), nil)
+				continue
+			}
+			args = []string{"build", in, "-o", "-#format=binpb"}
+			what = "build-from-image" + filepath.Ext(in)
+		}
 		for _, n := range f.inc {
 			args = append(args, "--type", n)
 		}
@@ -921,7 +944,7 @@ func c12CLI(c *core.C, ci *c12Image, ix *c12Index, w *c12Workload) {
 				got = append(got, fd)
 			}
 		}
-		compare("build", f, got, o.Code != 0, string(o.Stderr))
+		compare(what, f, got, o.Code != 0, string(o.Stderr))
 	}
 	// `buf generate --type/--exclude-type` (controller, in place) and per-plugin types/exclude_types (copying)
 	for k := 0; k < 2; k++ {
